@@ -142,6 +142,16 @@ def read_byte(ex, seq_t, idx_t):
     hit = cache.get(key)
     if hit is not None:
         return hit
+    # a read at a position the simplifier can resolve (unit inside a concatenation) needs no name
+    if ci is not None and z3.is_app(seq_t) and seq_t.decl().kind() == z3.Z3_OP_SEQ_CONCAT:
+        direct = _unit_at(seq_t, ci)
+        if direct is not None:
+            r = mk_int(direct)
+            if isinstance(r, Sym):
+                ex.add_def(z3.And(r.t >= 0, r.t <= 255))
+            cache[key] = r
+            ex.keep.append((seq_t, idx_t))
+            return r
     b = z3.Int(ex.fresh_name('byte'))
     ex.add_def(b == seq_t[idx_t])
     ex.add_def(z3.And(b >= 0, b <= 255))
@@ -149,6 +159,26 @@ def read_byte(ex, seq_t, idx_t):
     cache[key] = r
     ex.keep.append((seq_t, idx_t))
     return r
+
+
+def _unit_at(t, i):
+    """element i of a concatenation whose first i+1 parts are unit sequences, else None"""
+    parts = []
+    stack = [t]
+    while stack:
+        x = stack.pop()
+        if z3.is_app(x) and x.decl().kind() == z3.Z3_OP_SEQ_CONCAT:
+            stack.extend(reversed(x.children()))
+            continue
+        parts.append(x)
+        if len(parts) > i:
+            break
+    if len(parts) <= i:
+        return None
+    for p in parts[: i + 1]:
+        if not (z3.is_app(p) and p.decl().kind() == z3.Z3_OP_SEQ_UNIT):
+            return None
+    return parts[i].arg(0)
 
 
 def name_int(ex, v, hint='t'):
@@ -299,6 +329,8 @@ def subscript(ex, o, i):
         return read_byte(ex, o.t, idx)
     if is_seq_sym(o):
         return seq_get(ex, o, i)
+    if isinstance(o, (tuple, list)) and len(o) > 8 and not isinstance(i, int) and all(isinstance(x, int) and not isinstance(x, bool) for x in o):
+        return table_lookup(ex, o, i)
     if isinstance(o, (tuple, list, str, range)):
         if isinstance(i, int):
             try:
@@ -317,6 +349,27 @@ def subscript(ex, o, i):
         except Exception as e:
             raise PyExc(e)
     raise Unsupported(f'subscript {o!r}[{i!r}]')
+
+
+_TABLES = {}
+
+
+def table_lookup(ex, tbl, i):
+    """constant table of ints indexed by a symbolic value: an uninterpreted function with one
+    defining equation per entry (added once per path)"""
+    key = id(tbl)
+    ent = _TABLES.get(key)
+    if ent is None:
+        f = z3.Function(f'tbl{len(_TABLES)}', z3.IntSort(), z3.IntSort())
+        ent = (f, tbl)
+        _TABLES[key] = ent
+    f, _ = ent
+    idx = norm_index(ex, i, len(tbl))
+    done = ex.__dict__.setdefault('tables_defined', set())
+    if key not in done:
+        done.add(key)
+        ex.add_def(z3.And(*[f(z3.IntVal(j)) == int(v) for j, v in enumerate(tbl)]))
+    return mk_int(f(idx))
 
 
 def seq_get(ex, seq, i):
@@ -965,7 +1018,11 @@ def int_binop(ex, op, a, b):
             raise Unsupported('shift by symbolic amount')
         if cb < 0:
             ex.raise_(ValueError, 'negative shift count')
-        return mk_int(x * (1 << cb))
+        r = mk_int(x * (1 << cb))
+        if isinstance(r, Sym):
+            ex.__dict__.setdefault('shift_info', {})[r.t.get_id()] = cb
+            ex.keep.append(r.t)
+        return r
     if t is ast.RShift:
         if cb is None:
             raise Unsupported('shift by symbolic amount')
@@ -979,6 +1036,15 @@ def int_binop(ex, op, a, b):
             return mk_int(mask_and(x, cb))
         return bv_op(ex, t, a, b)
     if t in (ast.BitOr, ast.BitXor):
+        # one constant operand c >= 0: x | c == x + c - (x & c),  x ^ c == x + c - 2*(x & c)
+        # (identities of two's-complement integers; x & c is exact arithmetic, see mask_and)
+        if ca is not None and cb is None:
+            x, y, ca, cb = y, x, cb, ca
+        if cb is not None and cb >= 0:
+            andt = mask_and(x, cb)
+            if t is ast.BitOr:
+                return mk_int(x + cb - andt)
+            return mk_int(x + cb - 2 * andt)
         return bv_op(ex, t, a, b)
     if t is ast.Pow:
         if ca == 2 and False:
@@ -1015,15 +1081,44 @@ def bv_op(ex, t, a, b):
     (a `range` side obligation decided inline), then go through bit-vectors.
     Disjoint-bits special case of | is turned into +."""
     x, y = zint(a), zint(b)
-    # special case: (p * 2^k) | q  with 0 <= q < 2^k  ==  p*2^k + q
+    # special case: (p * 2^k) | q  with 0 <= q < 2^k  ==  p*2^k + q.  Candidate k's come first
+    # from the shifts that built the operands (tracked syntactically), then from a fixed list.
     if t is ast.BitOr:
+        hints = ex.__dict__.setdefault('shift_info', {})
         for (u, v) in ((x, y), (y, x)):
-            for k in (1, 2, 3, 4, 5, 6, 7, 8, 10, 12, 14, 15, 16, 24, 32):
-                if not ex.feasible(z3.Not(z3.And(u % (1 << k) == 0, v >= 0, v < (1 << k)))):
-                    return mk_int(u + v)
+            ks = []
+            ku = hints.get(u.get_id())
+            if ku is not None:
+                ks.append(ku)
+            cv = conc_int(v)
+            if cv is not None and cv >= 0:
+                kb = max(cv.bit_length(), 1)
+                if kb not in ks:
+                    ks.append(kb)
+            for k in ks:
+                if ex.proves(z3.And(u % (1 << k) == 0, v >= 0, v < (1 << k))):
+                    r = mk_int(u + v)
+                    if isinstance(r, Sym):
+                        kv = hints.get(v.get_id())
+                        low = min(k, kv) if kv is not None else (0 if cv is None or cv % 2 else (cv & -cv).bit_length() - 1)
+                        if cv == 0:
+                            low = k
+                        hints[r.t.get_id()] = low
+                        ex.keep.append(r.t)
+                    return r
+    # an operand with at most four possible values (a flag shifted into place) is case split,
+    # which leaves a constant operand and exact integer arithmetic
+    if not ex.quant:
+        hints = ex.__dict__.setdefault('shift_info', {})
+        for (u, v, ua, va) in ((x, y, a, b), (y, x, b, a)):
+            k = hints.get(u.get_id(), 0)
+            unit = 1 << k
+            if ex.proves(z3.And(u >= 0, u <= 3 * unit, u % unit == 0)):
+                j = ex.decide([u == m * unit for m in range(4)], 'small operand of bit operation')
+                return int_binop(ex, t(), j * unit, va)
     for w in (8, 16, 32, 64):
         lim = 1 << w
-        if not ex.feasible(z3.Not(z3.And(x >= 0, x < lim, y >= 0, y < lim))):
+        if ex.proves(z3.And(x >= 0, x < lim, y >= 0, y < lim)):
             bx, by = z3.Int2BV(x, w), z3.Int2BV(y, w)
             r = {ast.BitOr: bx | by, ast.BitXor: bx ^ by, ast.BitAnd: bx & by}[t]
             return mk_int(z3.BV2Int(r, False))
